@@ -283,9 +283,17 @@ def bind(self, t, v, st, node):
         views = self.frames[-1].__dict__.setdefault('slice_views', {}) if self.frames else None
         if views is not None:
             sv = getattr(v, 'slice_view', None) if isinstance(v, Num) else None
+            def acyclic(nm):
+                seen_ = set()
+                while nm in views:
+                    if nm == t.id or nm in seen_:
+                        return False
+                    seen_.add(nm)
+                    nm = views[nm][0]
+                return nm != t.id
             if sv is not None and isinstance(node, ast.Assign) and isinstance(node.value, ast.Subscript) and sv[0] != t.id \
-                    and sv[0] not in views:
-                views[t.id] = sv + (v.uid,)          # (a view of a view, or of the name itself, is not followed)
+                    and acyclic(sv[0]):
+                views[t.id] = sv + (v.uid,)          # (a view of the name itself, or a cycle of views, is not followed)
             else:
                 views.pop(t.id, None)
         return
@@ -656,6 +664,19 @@ def s_If(self, s, st, frame):
             elif hi_r is not None and v_r == hi_r - 1:
                 tight = (sym_r, (lo_r, hi_r), (lo_r, hi_r - 1))
 
+    # parity of an iteration: `if a != 2*h` / `if a == 2*h` / `if a % 2` with h = floor(a/2) recorded in Aff.HALF -- in the odd arm
+    # h is (a-1)/2, in the even arm a/2 (only integer names bound to an affine form in h are rewritten)
+    pars = _parity_test(self, s.test, st)
+    for par in pars:
+        h_, a_, odd_is_body = par
+        for arm_state, odd in ((sta, odd_is_body), (stb, not odd_is_body)):
+            val = (a_ - 1).scale(F(1, 2)) if odd else a_.scale(F(1, 2))
+            for k_, v_ in list(arm_state.env.items()):
+                if isinstance(v_, IntV) and v_.a is not None and h_ in v_.a.t:
+                    arm_state.env[k_] = IntV(v_.a.subs({h_: val}), v_.taint)
+    if pars:
+        refine = None
+        tight = None
     # path facts: inside the arms of `if e1 <op> e2` on affine integers the comparison (or its negation) is known
     facts_t, facts_f = [], []
     if isinstance(s.test, ast.Compare) and len(s.test.ops) == 1 and id(s.test) in self.cmp_affs:
@@ -729,6 +750,55 @@ def s_If(self, s, st, frame):
     if refine is not None and a is not None and b is not None:
         _reconcile(refine, a, b)
     return join_st(a, b)
+
+
+def _parity_test(self, test, st):
+    """[(half symbol h, its argument a_h, True when the BODY is the arm in which a_h is odd)] for tests that decide the parity of
+    an integer form a: `a != 2*h` / `a == 2*h` with h = floor(a/2), `a % 2 [== / != 0 / 1]`, `a & 1`, `not a % 2`.  Every half
+    symbol whose argument differs from a by a constant is decided with it (an odd difference flips the parity)."""
+    a = None
+    odd_body = None
+    if isinstance(test, ast.Compare) and len(test.ops) == 1 and isinstance(test.ops[0], (ast.Eq, ast.NotEq)) \
+            and id(test) in self.cmp_affs:
+        op_, l_, r_ = self.cmp_affs[id(test)][0]
+        d = l_ - r_
+        for h_, a_ in Aff.HALF.items():
+            if h_ in d.t and abs(d.t[h_]) == 2 and (d == a_ - Aff.sym(h_).scale(2) or (-d) == a_ - Aff.sym(h_).scale(2)):
+                a, odd_body = a_, isinstance(op_, ast.NotEq)
+                break
+
+    def mod2(e):
+        if isinstance(e, ast.BinOp) and isinstance(e.right, ast.Constant) and \
+                ((isinstance(e.op, ast.Mod) and e.right.value == 2) or (isinstance(e.op, ast.BitAnd) and e.right.value == 1)):
+            return e.left
+        return None
+    if a is None:
+        t_, flip = test, False
+        if isinstance(t_, ast.UnaryOp) and isinstance(t_.op, ast.Not):
+            t_, flip = t_.operand, True
+        x = mod2(t_)
+        want = 1
+        if x is None and isinstance(t_, ast.Compare) and len(t_.ops) == 1 and isinstance(t_.ops[0], (ast.Eq, ast.NotEq)) \
+                and isinstance(t_.comparators[0], ast.Constant) and t_.comparators[0].value in (0, 1):
+            x = mod2(t_.left)
+            want = t_.comparators[0].value
+            if isinstance(t_.ops[0], ast.NotEq):
+                want = 1 - want
+        if x is not None:
+            try:
+                xv = _asint(self.eval(x, st))
+            except PathEnd:
+                xv = None
+            if xv is not None and xv.a is not None:
+                a, odd_body = xv.a, (want == 1) != flip
+    if a is None:
+        return []
+    out = []
+    for h_, a_ in Aff.HALF.items():
+        dd = a_ - a
+        if dd.is_const() and dd.c.denominator == 1:
+            out.append((h_, a_, odd_body if int(dd.c) % 2 == 0 else not odd_body))
+    return out
 
 
 def _refine_equal(self, test, st_true, st_false):
